@@ -98,7 +98,7 @@ theorem stop_remove_leave_nothing_partial (ops : List Op) (op : Op) (i : Nat) (s
         · exact (osStop_spec h3).2.2.2.1
     · rcases svcStop_cases s w.os ⟨faults, 0⟩ with ⟨h1, _, h3⟩ | ⟨_, h1, _, _⟩
       · rw [h1]; exact hpid (h3 hok)
-      · rw [h1]; rfl
+      · rw [h1]; exact onStop_pid s
   | remove j keep faults =>
     have hij : i = j := by simpa [isStopOrRemove] using hop
     subst hij
@@ -196,7 +196,7 @@ theorem addNode_reg (w : World) (fx : Fx) (count : Nat) (np mp rp : Option (Nat 
     · exact hnil
     · split
       · exact hnil
-      · have := addLoop_reg count (maxNumber w.reg + 1) (np.map (·.1)) (mp.map (·.1)) (rp.map (·.1)) metrics ver
+      · have := addLoop_reg count (startNumber w.reg) (np.map (·.1)) (mp.map (·.1)) (rp.map (·.1)) metrics ver
           ⟨w, fx, [], [], false⟩
         split
         · exact this
